@@ -452,13 +452,20 @@ def _raise_for_status_redacted(resp: aiohttp.ClientResponse, url: str) -> None:
         return
     import aiohttp as _aiohttp
     from aiohttp.client_reqrep import RequestInfo
+    from multidict import CIMultiDict, CIMultiDictProxy
     from yarl import URL
 
     safe_url = URL(redact_url(url))
+    # aiohttp turns URL userinfo into an ``Authorization: Basic`` request
+    # header -- the same secret, base64-encoded -- and the error's repr prints
+    # the request headers.
+    safe_headers = CIMultiDict(resp.request_info.headers)
+    safe_headers.popall("Authorization", None)
+    safe_headers.popall("Proxy-Authorization", None)
     request_info = RequestInfo(
         safe_url,
         resp.method,
-        resp.request_info.headers,
+        CIMultiDictProxy(safe_headers),
         real_url=safe_url,
     )
     raise _aiohttp.ClientResponseError(
